@@ -140,6 +140,76 @@ CLAIMS = {
              'known findings are listed in known_findings.json (D15, D21, D22). Canonical-form theorems for copy/pickle come from the C09 model.',
         design_ref='5/C10',
         note='No Coq theorem yet; the semantic theorem for substitute is out of reach in this session.'),
+    'C20': dict(
+        technique='Coq proofs about a Gallina transcription of the routing elaboration of def_file.py (wildcards, via arrays, per-layer / per-type '
+                  'listings, ROW arithmetic) with exact correspondence; DEF texts rendered from a generator-owned ground truth as oracle',
+        text='Proof (partial by construction). Proved for ALL routing statements and wire lists of the transcription Model/DefRoute.v: wire_points '
+             'equals the structural wildcard resolution and each resolved coordinate is the nearest explicitly written value at or before it in its '
+             'column (iff); a via sits at the last resolved wire point before it; DO n BY m STEP dx dy yields exactly the n*m positions '
+             '(x+i*dx, y+j*dy) (membership iff, count, exact order; NoDup whenever every direction with more than one copy has a non-zero step); '
+             'DefNet.wires / .vias list, per layer / via name in order of first use, exactly the segments / placements of all ROUTED wires in file '
+             'order (special and regular nets alike; several ROUTED statements accumulate); ROW DO-BY-STEP gives (count, step) for horizontal and '
+             'vertical rows with non-negative step. The transcription is tied to the code by comparing the listings of every generated net and the '
+             'points / vias of every parsed routing statement. Everything else parse() returns (header, UNITS, DIEAREA, ROW, TRACKS, VIAS options, '
+             'COMPONENTS, PINS, net pins / attributes / raw routing statements, section counts and order) is compared with the ground truth of '
+             'generated DEF texts (whitespace, comment and section-order variation).',
+        design_ref='5/C20',
+        note='NOT modelled: the lark grammar / lexer and the per-statement transformer callbacks (differential only). Modelled not verified: '
+             'DefWire.wire_points/.vias, DefNet.wires/.vias, accumulation of wiring statements, ROW branch (hand transcription of the REPAIRED code, '
+             'finding D7). Domain: first point of a routing statement fully specified; coordinates are unsigned in text (grammar), any integer in the '
+             'direct-object stream; ROW theorems require step >= 0 and one count = 1 (C20_row_negative_step_refuted). Not covered: pins with several '
+             'PORT/LAYER groups, a comment directly after "via ORIENT " with a single blank, via names that look like an orientation.'),
+}
+
+NOT_YET = 'check not built yet in this session (see DESIGN.md section 8 build order); no claim is made'
+
+
+def main():
+    props = [json.loads(l) for l in open(os.path.join(VERIF, 'properties.jsonl'))]
+    checks, na = [], []
+    for p in props:
+        pid = p['id']
+        c = CLAIMS.get(pid)
+        if c is None:
+            na.append({'property_id': pid, 'reason': NOT_YET})
+            continue
+        checks.append({
+            'property_id': pid,
+            'quick_cmd': f'./check {pid} --tier quick',
+            'thorough_cmd': f'./check {pid} --tier thorough',
+            'evidence_file': f'/verif/evidence/{pid}.json',
+            'replay_cmd_template': f'./check {pid} --replay {{path}}',
+            'engine': 'coq+correspondence',
+            'level_claimed': {'category': 'proof', 'text': c['text'], 'design_ref': c['design_ref']},
+            'level_note': BASE_NOTE + c['note'],
+            'technique': c['technique'],
+        })
+    m = {
+        'version': 1,
+        'setup_cmd': './check setup',
+        'hooks': {'guard': 'KYUPY_VERIF', 'enable': 'no hook is needed: every check drives the pure-Python code of /repo/src from outside '
+                  '(PYTHONPATH=/repo/src); the guard variable is reserved', 'baseline_off_cmd':
+                  'cd /repo && /venv/bin/python -m pytest -ra -q -p no:cacheprovider --timeout=900 --continue-on-collection-errors',
+                  'source_commits': [], 'add_only': True},
+        'engines': [
+            {'name': 'coq', 'path': '/verif/coq', 'serves_properties': sorted(CLAIMS),
+             'kind_free_text': 'Coq 8.16.1 development: Model/ (executable models), Gen/ (regenerated from /repo on every run), Proofs/, Properties/ (statements only)'},
+            {'name': 'translators', 'path': '/verif/translate', 'serves_properties': sorted(CLAIMS),
+             'kind_free_text': 'Python tracing symbolic executor and ast extractors that regenerate Gen/*.v from the working tree'},
+            {'name': 'harness', 'path': '/verif/vcheck', 'serves_properties': sorted(CLAIMS),
+             'kind_free_text': 'check CLI: translation, make, Print Assumptions, correspondence (model evaluated by vm_compute vs implementation), oracle search, known findings, evidence'},
+        ],
+        'checks': checks,
+        'not_applicable': na,
+        'notes': 'See DESIGN.md. All checks claim level "proof"; where a main theorem is partial the level text says so.',
+    }
+    with open(os.path.join(VERIF, 'MANIFEST.json'), 'w') as f:
+        json.dump(m, f, indent=1)
+    print(f'{len(checks)} checks, {len(na)} not claimed')
+
+
+if __name__ == '__main__':
+    main()
 }
 
 NOT_YET = 'check not built yet in this session (see DESIGN.md section 8 build order); no claim is made'
